@@ -53,6 +53,13 @@ impl Case {
     pub fn replay_json(&self, flavour: &str) -> J {
         json!({
             "flavour": flavour,
+            "schema_name": if flavour != "static" {
+                "generated dynamic schema"
+            } else if self.ts.sdl() == vh_schema::s1::model().sdl() {
+                "S1 (harness/schema/src/s1.rs)"
+            } else {
+                vh_gens::name_of_sdl(&self.ts.sdl()).unwrap_or("static schema of a pinned witness")
+            },
             "schema_sdl": self.ts.sdl(),
             "document": self.printed.text,
             "operation_name": self.gd.op_name,
@@ -73,27 +80,123 @@ pub fn exec_dynamic(schema: &async_graphql::dynamic::Schema, req: Request) -> Re
 pub enum AnySchema {
     Dyn(async_graphql::dynamic::Schema),
     S1(vh_schema::s1::S1Schema),
+    /// a member of the generated derive-built family (harness/gens); static flavour like S1
+    Gen(Arc<dyn vh_schema::StaticExec>),
 }
 
 impl AnySchema {
     pub fn flavour(&self) -> &'static str {
         match self {
             AnySchema::Dyn(_) => "dynamic",
-            AnySchema::S1(_) => "static",
+            AnySchema::S1(_) | AnySchema::Gen(_) => "static",
         }
     }
     pub fn execute(&self, req: Request) -> Response {
         match self {
             AnySchema::Dyn(s) => vh_core::vsched::block_on(s.execute(req)),
             AnySchema::S1(s) => vh_core::vsched::block_on(s.execute(req)),
+            AnySchema::Gen(s) => vh_core::vsched::block_on(s.execute(req)),
         }
     }
     pub async fn execute_async(&self, req: Request) -> Response {
         match self {
             AnySchema::Dyn(s) => s.execute(req).await,
             AnySchema::S1(s) => s.execute(req).await,
+            AnySchema::Gen(s) => s.execute(req).await,
         }
     }
+    /// Is `parent_ty.field` an eagerly built SimpleObject member (no resolver that could fail or be gated)?
+    pub fn eager_field(&self, parent_ty: &str, field: &str) -> bool {
+        match self {
+            AnySchema::Dyn(_) => false,
+            AnySchema::S1(_) => parent_ty == "Stats" && field != "derived",
+            AnySchema::Gen(s) => s.eager_field(parent_ty, field),
+        }
+    }
+}
+
+/// One static-flavour (derive-built) schema a check runs on.
+#[derive(Clone)]
+pub struct StaticMember {
+    /// "S1", "g0", "g1", …
+    pub name: &'static str,
+    pub ts: Arc<TypeSystem>,
+    pub schema: AnySchema,
+    /// None for S1
+    pub exec: Option<Arc<dyn vh_schema::StaticExec>>,
+}
+
+/// The derive-built schemas of the static flavour: the hand-written S1 first, then every member of the generated
+/// family (harness/gens). `VERIF_GENS=0` leaves the family out (S1 only, as before the family existed).
+/// The family is used only when it is sound to judge it: every module rebuilds exactly the model it was generated
+/// from and declares exactly that model (introspection self-check); otherwise the run is INCONCLUSIVE — a stale
+/// or wrong generator is a harness problem, never a violation.
+pub fn static_family(run: &Run) -> Vec<StaticMember> {
+    let mut out = vec![StaticMember { name: "S1", ts: vh_schema::s1::model(), schema: AnySchema::S1(vh_schema::s1::schema()), exec: None }];
+    if std::env::var("VERIF_GENS").as_deref() == Ok("0") {
+        run.note("VERIF_GENS=0: generated schema family left out, static flavour = S1 only");
+        return out;
+    }
+    // generator feature, off while a known finding excludes it (see vh_schema::genrt::set_nested_routing)
+    vh_schema::genrt::set_nested_routing(family_feature(run, "value_through_nested_interface_variant"));
+    match vh_core::catch(vh_gens::try_family) {
+        Ok(Ok(members)) => {
+            for (name, ts, exec) in members {
+                let diffs = vh_gens::selfcheck::check(&ts, &exec);
+                if !diffs.is_empty() {
+                    run.inconclusive(&format!("generated schema {name} does not declare its model: {}", diffs.join("; ")));
+                    continue;
+                }
+                out.push(StaticMember { name, ts, schema: AnySchema::Gen(exec.clone()), exec: Some(exec) });
+            }
+        }
+        Ok(Err(e)) | Err(e) => run.inconclusive(&e),
+    }
+    out
+}
+
+/// A generator feature of the shared family: off while a known finding of ANY property excludes it (the family
+/// is one set of schemas used by several checks; the pinned witness lives in the check whose property it breaks).
+pub fn family_feature(run: &Run, name: &str) -> bool {
+    run.feature(name)
+        && !vh_core::run::load_findings(&run.root).iter().any(|f| f.status == "known" && f.excludes_features.iter().any(|x| x == name))
+}
+
+/// For checks that draw the schema per case: with probability 1/3 (and when the family is available) a member of the
+/// generated family instead of S1. Counts `static_cases_<name>` for the member, `static_cases_S1` otherwise.
+pub fn pick_family<'a>(run: &Run, statics: &'a [StaticMember], r: &mut Rng) -> Option<&'a StaticMember> {
+    pick_family_p(run, statics, r, 1, 3)
+}
+
+/// `pick_family` with probability num/den.
+pub fn pick_family_p<'a>(run: &Run, statics: &'a [StaticMember], r: &mut Rng, num: u32, den: u32) -> Option<&'a StaticMember> {
+    if statics.len() > 1 && r.chance(num, den) {
+        let m = &statics[1 + r.below(statics.len() - 1)];
+        run.count(&format!("static_cases_{}", m.name), 1);
+        Some(m)
+    } else {
+        run.count("static_cases_S1", 1);
+        None
+    }
+}
+
+/// Evidence entry describing the static schemas of a run: name, SDL hash of the model, object count, derive features.
+pub fn static_family_extra(members: &[StaticMember]) -> J {
+    let feats: std::collections::BTreeMap<&str, &[&str]> = vh_gens::features().into_iter().collect();
+    J::Array(
+        members
+            .iter()
+            .map(|m| {
+                json!({
+                    "name": m.name,
+                    "source": if m.name == "S1" { "harness/schema/src/s1.rs (hand-written)".to_string() } else { format!("harness/gens/src/{}.rs (generated)", m.name) },
+                    "model_sdl_hash": format!("{:016x}", rng::hash_str(&m.ts.sdl())),
+                    "object_types": m.ts.objects().len(),
+                    "derive_features": feats.get(m.name).map(|f| f.to_vec()).unwrap_or_default(),
+                })
+            })
+            .collect(),
+    )
 }
 
 pub fn ts_opts(_run: &Run) -> TsOpts {
